@@ -26,6 +26,9 @@ CHECKS = {
  "C09": ("2/C09", TECH + ": start values x precisions x offsets x units x amounts x {+,-} enumerated as a grid of direct Add/Sub calls and through Evaluate, vs an independent proleptic-Gregorian day-count model",
          "every cell of the grid is executed on the real system.{Date,DateTime,Time}.{Add,Sub} (and every type/precision/unit/op combination through Compile/Evaluate) and compared with a calendar model that shares no code with the repository; monotonicity and (x+q)-q=x are checked on the implementation's own outputs",
          "years outside 2019-2022 only at listed edge days; the model (harness/lib/reftime.go, c09Ref) is trusted; documented latitude for UCUM spellings and finer-than-precision units"),
+ "C18": ("2/C18", "explicit-state BFS over patch operation histories on the real object + bounded exhaustive single-operation sweep (every element x operation x spelling x value class x index), both against a structural reference model",
+         "every element of every swept resource is the target of every operation in every spelling with every value class and index; every history of the 16-operation alphabet up to the depth bound is executed on the real patch package with states de-duplicated by canonical bytes; each transition is compared with the reference model's transition (equal FHIR JSON) and each failing operation must leave resource and value untouched",
+         "the reference model works by schema position on a protobuf copy (C02 ties schema positions to the jsonformat tree); elements inside contained/bundled resources are not targeted; quick sweeps 24 of the 146 generated types"),
  "C19": ("2/C19", TECH + ": all 146 type names x id/version/base pools x reference forms; every single edit of seed strings x every parser; reference.Is over all triples of a reference pool",
          "every generated identity/reference string is formatted and parsed by every parser of the repository and compared component-wise; parse-format-parse stability for every accepted string; typed vs weak references built with google/fhir normalisation; equivalence laws over all triples",
          "id alphabet per FHIR R4; ids/versions/bases outside the pools and multi-byte edits are not covered"),
@@ -69,7 +72,7 @@ for cid in ALL:
         "thorough_cmd": "./check %s thorough" % cid,
         "evidence_file": "evidence/%s.json" % cid,
         "replay_cmd_template": "./check %s --replay {path}" % cid,
-        "engine": "explorer",
+        "engine": "bfs" if cid in ("C18", "C04") else "explorer",
         "level_claimed": {"category": "model_checking", "text": text, "design_ref": "DESIGN.md section " + sec},
         "level_note": note,
         "technique": tech,
@@ -79,7 +82,7 @@ m = {
  "version": 1,
  "setup_cmd": "./setup.sh",
  "hooks": {"guard": "verif", "enable": "no hooks in /repo: the harness module (replace => /repo) imports the repository's packages directly and is rebuilt against the working tree by ./check", "baseline_off_cmd": "cd /repo && GOFLAGS=-mod=mod go test -vet=off -count=1 ./...", "source_commits": [], "add_only": True},
- "engines": [{"name": "explorer", "path": "harness/core", "serves_properties": sorted(CHECKS), "kind_free_text": "index-enumerated finite case spaces, sharded over 16 worker sub-processes, every case executed on the real code; findings classified against known_findings.json and re-executed 5x before being reported"}],
+ "engines": [{"name": "bfs", "path": "harness/checks", "serves_properties": ["C18"], "kind_free_text": "explicit-state breadth-first search over operation histories of the real object; state = canonical deterministic bytes; successors by replaying the shortest path on a fresh copy; every transition compared with a reference model"}, {"name": "explorer", "path": "harness/core", "serves_properties": sorted(CHECKS), "kind_free_text": "index-enumerated finite case spaces, sharded over 16 worker sub-processes, every case executed on the real code; findings classified against known_findings.json and re-executed 5x before being reported"}],
  "checks": checks,
  "not_applicable": na,
  "notes": "fix: commits in /repo are listed under 'fixed' in known_findings.json",
